@@ -392,6 +392,17 @@ Proof.
 Qed.
 Print Assumptions C14_gibbs_composite.
 
+(* the instance the generated cases evaluate (a state = its position in the reference chain; get_state = the position;
+   set_state replaces it) satisfies the three hypotheses of C14_resume / C14_checkpoint_any_position: for it they are facts,
+   so every TResume evaluated by check_exp is covered by those theorems *)
+Theorem C14_trace_instance : forall ref : list Z,
+  (forall (k : nat) (s : nat), (fun s' : nat => s') ((fun (k' : nat) (_ : nat) => k') k s) = k) /\
+  (forall (c : unit) (s1 s2 : nat) (r : unit), s1 = s2 ->
+     fst (tr_step c s1 r) = fst (tr_step c s2 r) /\ snd (tr_step c s1 r) = snd (tr_step c s2 r)) /\
+  (forall s1 s2 : nat, s1 = s2 -> tr_point ref s1 = tr_point ref s2).
+Proof. intros ref. repeat split; intros; subst; reflexivity. Qed.
+Print Assumptions C14_trace_instance.
+
 (* non-vacuity: a two-component state whose second component is not saved and not read satisfies the hypotheses
    of C14_resume; a small fact record satisfies footprint_ok and reinit_ok; the trace instance runs *)
 Example C14_example :
